@@ -257,6 +257,18 @@ class Verifier(ExprMixin, StmtMixin, CallMixin, LibMixin, SpecMixin):
             if pattern.startswith("@augassign:"):
                 nm = pattern.split(":", 1)[1]
                 hits = [n for n in stmts if isinstance(n, ast.AugAssign) and isinstance(n.target, ast.Name) and n.target.id == nm]
+            elif pattern.startswith("@store:"):
+                # any store (plain or augmented) through a subscript of the named array, e.g. @store:coo.key - robust against edits of
+                # the index or of the stored value, which are then verified instead of un-anchoring the ghost code
+                nm = pattern.split(":", 1)[1]
+                hits = [n for n in stmts if (isinstance(n, ast.AugAssign) and isinstance(n.target, ast.Subscript) and ast.unparse(n.target.value) == nm)
+                        or (isinstance(n, ast.Assign) and len(n.targets) == 1 and isinstance(n.targets[0], ast.Subscript)
+                            and ast.unparse(n.targets[0].value) == nm)]
+            elif pattern.startswith("@call:"):
+                # the statement (assignment or expression statement) that calls the named function
+                nm = pattern.split(":", 1)[1]
+                hits = [n for n in stmts if isinstance(n, (ast.Assign, ast.Expr, ast.AugAssign))
+                        and any(isinstance(c, ast.Call) and isinstance(c.func, ast.Name) and c.func.id == nm for c in ast.walk(n.value))]
             elif pattern.startswith("@assign:"):
                 # anchored on the assigned name, so that an edit of the right-hand side is verified, not lost
                 nm = pattern.split(":", 1)[1]
@@ -298,12 +310,8 @@ class Verifier(ExprMixin, StmtMixin, CallMixin, LibMixin, SpecMixin):
             # once something in this function failed, later obligations get a short budget (they are often
             # consequences of the same defect and only cost time); verdicts stay sat/unsat/unknown
             r = solve.prove(st.full_pc(), goal, 2000 if self.degraded else self.timeout_ms, external=not self.degraded)
-            if r["verdict"] == "unknown" and not self.degraded:
-                # a timeout is not a verdict: one patient retry (6x the budget) before the obligation is reported as not discharged,
-                # so that a busy machine does not turn into an alarm
-                r2 = solve.prove(st.full_pc(), goal, (self.timeout_ms or solve.QUICK_MS) * 6, external=True)
-                r2["ms"] += r["ms"]
-                r = r2
+            # (no "patient retry": budgets are deterministic resource limits, a second try with the same seed would only be a
+            # larger budget - the budget itself is sized for that)
             if r["verdict"] != "unsat":
                 self.degraded = True
             o.verdict, o.backend, o.ms = r["verdict"], r["backend"], r["ms"]
@@ -313,6 +321,23 @@ class Verifier(ExprMixin, StmtMixin, CallMixin, LibMixin, SpecMixin):
         o.trace = list(st.trace[-12:])
         self.obligations.append(o)
         st.assume(goal)  # assume-after-assert: one failure does not cascade
+
+    def oblige_isolated(self, st, kind, node, hyps, goal, note):
+        """An obligation whose only hypotheses are `hyps` (not the path condition); goal is assumed on the state afterwards."""
+        line = getattr(node, "lineno", self.cur_line)
+        self.counter[kind] = self.counter.get(kind, 0) + 1
+        o = Obligation()
+        o.func, o.kind, o.line, o.note = self.qname, kind, line, note
+        o.name = "%s/%s#%d@L%d" % (self.qname, kind, self.counter[kind], line)
+        r = solve.prove(list(hyps), goal, self.timeout_ms, external=True)
+        o.verdict, o.backend, o.ms, o.model = r["verdict"], r["backend"] + " (isolated)", r["ms"], None
+        if o.verdict == "unknown":
+            o.note += " [solver: %s]" % r.get("reason", "")
+        if o.verdict != "unsat":
+            self.degraded = True
+        o.trace = list(st.trace[-12:])
+        self.obligations.append(o)
+        st.assume(goal)
 
     def model_input(self, model):
         """Concrete values of the function's parameters in the counter-model (bounded read-out)."""
@@ -377,6 +402,57 @@ class Verifier(ExprMixin, StmtMixin, CallMixin, LibMixin, SpecMixin):
             agg[k] = agg.get(k, False) or bool(r)
         return [dict(what=w, line=l, reachable=r) for (w, l), r in agg.items()]
 
+    def heap_terms(self, st, v, seen=None):
+        """All z3 terms that make up the (deep) contents of a value - for the frame condition."""
+        seen = set() if seen is None else seen
+        if isinstance(v, Tup):
+            return [t for x in v.items for t in self.heap_terms(st, x, seen)]
+        if isinstance(v, View):
+            v = Ref(v.ref)
+        if not isinstance(v, Ref) or v.ref in seen or v.ref not in st.heap:
+            return []
+        seen.add(v.ref)
+        out = []
+        for name, x in sorted(vars(st.obj(v)).items()):
+            if name in ("origin",):
+                continue
+            for y in (x if isinstance(x, (list, tuple)) else [x]):
+                if isinstance(y, z3.ExprRef):
+                    out.append(y)
+        return out
+
+    def frame_obligations(self, st, fdef):
+        """Frame: an object passed in and not listed under `modifies` has the same contents at exit as at entry (callers rely on
+        exactly that: they keep what they know about every argument the contract does not declare modified)."""
+        mods = {m.split(".")[0].split("[")[0] for m in self.contract.get("modifies", [])}
+        for pn, pv in self.entry_params.items():
+            if pn in mods:
+                continue
+            try:
+                t0, t1 = self.heap_terms(self.entry_state, pv), self.heap_terms(st, pv)
+            except Exception:   # pragma: no cover
+                continue
+            if not t0 or len(t0) != len(t1):
+                continue
+            if all(a.eq(b) for a, b in zip(t0, t1)):
+                continue   # syntactically untouched: nothing to prove
+            goal = z3.And(*[a == b for a, b in zip(t0, t1) if not a.eq(b)])
+            self.oblige(st, "frame", fdef, goal, "frame: parameter '%s' is not declared in `modifies` and must be unchanged at exit" % pn)
+
+    def verify_lemmas(self, qn, t0):
+        """The lemma library as a pseudo-function: induction proofs of the lemmas the contracts invoke (pyvc/lemmas.py)."""
+        from . import lemmas
+        obs = []
+        for i, (name, note, verdict, secs) in enumerate(lemmas.obligations(self.timeout_ms or 20000)):
+            o = Obligation()
+            o.func, o.kind, o.line, o.note = qn, "lemma-proof", 0, "%s: %s" % (name, note)
+            o.name = "%s/lemma-proof#%d@%s" % (qn, i + 1, name)
+            o.verdict, o.backend, o.ms, o.model, o.trace = verdict, "z3-api(induction step)", secs * 1000.0, None, []
+            obs.append(o)
+        return dict(function=qn, variant=None, error=None, obligations=[o.as_dict() for o in obs], canaries=[],
+                    trusted=["induction scheme over the naturals (base + step imply the lemma for every n) applied by the generator"],
+                    inlined=[], used_contracts=[], loops_cut=[], paths=0, wall_s=round(time.time() - t0, 3), source_sha="lemmas", lines=[0, 0])
+
     # ------------------------------------------------------------ verification of one function
     def verify(self, qn, variant=None):
         """Returns dict(function, obligations[...], canaries, trusted, inlined, used_contracts, wall_s, error)."""
@@ -384,12 +460,15 @@ class Verifier(ExprMixin, StmtMixin, CallMixin, LibMixin, SpecMixin):
         solve.reset_state()
         self.qname = qn
         self.fname = qn
+        if qn.startswith("lemma::"):
+            return self.verify_lemmas(qn, t0)
         self.contract = dict(self.contracts[qn])
         if variant:
             key = "locals" if self.contract.get("segment") else "params"
             self.contract[key] = dict(self.contract[key], **variant)
         self.obligations, self.counter, self.canaries = [], {}, []
         self.trusted, self.inlined, self.used_contracts = set(), set(), set()
+        self.lemmas_used = set()
         self.ufuncs, self.recfuns, self.call_count = {}, {}, {}
         self.loops_cut, self.raise_paths = [], []
         self.spec, self.assuming, self.fsafe = False, False, bool(self.contract.get("fsafe"))
@@ -450,7 +529,7 @@ class Verifier(ExprMixin, StmtMixin, CallMixin, LibMixin, SpecMixin):
                 st.assume(self.spec_bool(lm, st, assume=True))
             self.entry_state = st.snapshot()
             st.old = self.entry_state
-            self.canaries.append(("precondition satisfiable", fdef.lineno, solve.feasible(st.pc, 2000, full=True)))
+            self.canaries.append(("precondition satisfiable", fdef.lineno, solve.feasible(st.pc, 500, full=True)))
             self.run_ghost(self.contract.get("ghost_init"), st)
             outs = self.exec_block(body, st)
             n_ret = 0
@@ -474,7 +553,10 @@ class Verifier(ExprMixin, StmtMixin, CallMixin, LibMixin, SpecMixin):
                 s2.vars["result"] = (result, True)  # a local variable called `result` must not shadow the returned value
                 for i, e in enumerate(list(self.contract.get("ensures", [])) + list(self.contract.get("ensures_ghost", []))):
                     self.oblige(s2, "post", fdef, self.spec_bool(e, s2), "postcondition #%d: %s" % (i + 1, e))
-                reach.append(solve.feasible(s2.pc, 1000, full=True))
+                if not self.contract.get("segment"):
+                    self.frame_obligations(s2, fdef)
+                if not any(reach):   # one reachable exit is enough for the vacuity guard
+                    reach.append(solve.feasible(s2.pc, 200, full=True))
             # vacuity guard: some normal exit must be reachable (only meaningful if nothing failed)
             if all(o.verdict == "unsat" for o in self.obligations):
                 self.canaries.append(("some return path reachable", fdef.lineno, any(reach)))
@@ -487,5 +569,6 @@ class Verifier(ExprMixin, StmtMixin, CallMixin, LibMixin, SpecMixin):
             canaries=self.aggregate_canaries(),
             trusted=sorted(self.trusted), inlined=sorted(self.inlined), used_contracts=sorted(self.used_contracts),
             loops_cut=list(self.loops_cut), paths=self.npaths, wall_s=round(time.time() - t0, 3),
+            solver=dict(solve.STATS),
         )
         return res
